@@ -193,6 +193,25 @@ func evalC19(c c19Case, rec *hx.Rec) error {
 			return fmt.Errorf("BatchNormalize changed the point held by element %d of %d (pattern %s, repeated pointers: %v)", i, len(list), c.Pattern, repeated)
 		}
 	}
+	// the same objects, made projective again in place, go through BatchNormalize a second time
+	if len(list) > 0 {
+		done := map[*banderwagon.Element]bool{}
+		for i, e := range list {
+			if !done[e] {
+				done[e] = true
+				*e = hx.ToImpl(hx.Rep(hx.FromImpl(e), 1, uint64(77+i)))
+			}
+		}
+		if perr := hx.Try(func() { nerr = banderwagon.BatchNormalize(list) }); perr != nil || nerr != nil {
+			return fmt.Errorf("second BatchNormalize of the same objects: %v %v", perr, nerr)
+		}
+		for i, e := range list {
+			after := hx.FromImpl(e)
+			if !after.Z.IsOne() || !hx.G.IsValid(after) || !hx.G.Equal(after, before[i]) {
+				return fmt.Errorf("second BatchNormalize of the same objects (re-projectivised in between) left element %d of %d with Z != 1 or changed it", i, len(list))
+			}
+		}
+	}
 	rec.Label("pattern="+c.Pattern, "len="+lenBucket(len(list)))
 	if repeated && nonnorm {
 		rec.NT(fmt.Sprint(c))
